@@ -24,6 +24,7 @@ META = {
 THEOREMS = [
     "C20_queue",
     "C20_term",
+    "C20_term_always",
     "C20_once",
     "C20_paths",
     "C20_paths_cwd",
@@ -526,6 +527,10 @@ def run(chk):
             continue
         if v is not None:
             sig, what = v
+            if any(x["key"] == canon(sig) for x in chk.violations):
+                # same signature as a violation that was already confirmed and minimised: count it
+                chk.violation(sig, what, {"spec": spec, "case": case})
+                continue
             # confirm in the parent process before anything is reported
             case2, obs2 = _work(spec)
             v2 = judge(case2, obs2)
@@ -537,7 +542,9 @@ def run(chk):
                     w = judge(c, o)
                     return w is not None and w[0] == sig
 
-                small = shrink_spec(spec, fails) if len(chk.violations) < 4 else spec
+                # a case that hangs costs the whole guard time per attempt: shrink it only a little
+                budget = 4 if sig.get("class") == "hang" else 60
+                small = shrink_spec(spec, fails, budget) if len(chk.violations) < 4 else spec
                 mc, mo = _work(small)
                 chk.violation(sig, what, {"spec": small, "case": mc, "impl": {"syn": mo["syn"], "multi_err": mo["multi"].get("err"), "msg": mo["multi"].get("msg")}})
             continue
